@@ -303,7 +303,11 @@ fn run(prop_id: &str, tier: &str) -> i32 {
                         inconclusive.push(format!("worker {} died ({:?}) and left no current-case record", name, s));
                     }
                 } else {
-                    inconclusive.push(format!("worker {} ended abnormally ({:?}){}", name, s, if hang.is_some() { " after exceeding the per-case CPU budget" } else { "" }));
+                    let detail = match &hang {
+                        Some(h) => format!(" after exceeding the per-case CPU budget in sub-check {} on case {}", h["sub"].as_str().unwrap_or("?"), h["case_text"].as_str().unwrap_or("").chars().take(400).collect::<String>()),
+                        None => String::new(),
+                    };
+                    inconclusive.push(format!("worker {} ended abnormally ({:?}){}", name, s, detail));
                 }
             }
         }
